@@ -351,6 +351,9 @@ class SchedSim(object):
     #
     def _on_grant(self, t):
         uid = t['uid']
+        if self.reports.get(uid, {}).get('canceled'):
+            self.bad('C08', 'canceled_task_started', '%s was reported CANCELED and is then '
+                     'passed on for execution' % uid)
         if not self._report(uid, 'started'):
             return
         spec  = self.accepted[uid]
